@@ -37,13 +37,14 @@ class Fold(Harness):
     prop, ob = PROP, 'O1'
     width = 64
 
-    def __init__(self, mix):
-        # mix: dict cat -> tuple of 'F','W','G','U'
+    def __init__(self, mix, client=False):
+        # mix: dict cat -> tuple of 'F','W','G','U'; client: a client audit (-c) - the unreported direction carries decoys of other severities in both roles
         self.mix = {c: tuple(mix.get(c, ('G',))) for c in OL.CATS}
-        self.name = 'fold-' + '_'.join(''.join(self.mix[c]) for c in OL.CATS)
+        self.client = client
+        self.name = 'fold-' + '_'.join(''.join(self.mix[c]) for c in OL.CATS) + ('-client' if client else '')
 
     def params(self):
-        return {'mix': {c: list(v) for c, v in self.mix.items()}}
+        return {'mix': {c: list(v) for c, v in self.mix.items()}, 'client': self.client}
 
     def inputs(self):
         return {'u': {c: [zx.fresh_str('u%s%d' % (c, i), 2, OL.NAMECH) for i, k in enumerate(self.mix[c])] for c in OL.CATS},
@@ -60,14 +61,14 @@ class Fold(Harness):
 
     def run(self, M, inp):
         L = self.lists(M, inp)
-        base = OL.run_output(M, L)   # plain rendering at level info: the reference report
+        base = OL.run_output(M, L, client=self.client)   # plain rendering at level info: the reference report
         lvl = ['info', 'warn', 'fail'][inp['lvl'].__index__() if not isinstance(inp['lvl'], int) else inp['lvl']]
         j = bool(inp['json'])
-        alt = OL.run_output(M, L, json=j, batch=bool(inp['batch']), verbose=bool(inp['verbose']), level=lvl)
+        alt = OL.run_output(M, L, json=j, batch=bool(inp['batch']), verbose=bool(inp['verbose']), level=lvl, client=self.client)
         if isinstance(base['ret'], Exc) or isinstance(alt['ret'], Exc):
             return {'exc': base['ret'] if isinstance(base['ret'], Exc) else alt['ret']}
         parsed = OL.parse_alg_lines(base['lines'])
-        jd = OL.run_output(M, L, json=True)
+        jd = OL.run_output(M, L, json=True, client=self.client)
         jl = []
         if not isinstance(jd['ret'], Exc):
             for c in OL.CATS:
@@ -316,6 +317,8 @@ def tasks(tier):
                 mixes.append({c: tri})
     for m in mixes:
         T.append(Fold(m))
+    for m in ({'enc': ('G',), 'mac': ('G',)}, {'enc': ('W', 'G'), 'mac': ('G',)}, {'enc': ('G',), 'mac': ('G', 'F')}, {'kex': ('U',), 'enc': ('G',)}):
+        T.append(Fold(m, True))
     for st in ('refused', 'silent', 'early-close', 'no-banner', 'banner-only', 'truncated-kexinit', 'wrong-type', 'bad-block-size', 'garbage-kexinit', 'unresolvable',
                'short-kexinit-payload-1', 'short-kexinit-payload-10', 'short-kexinit-payload-17', 'short-kexinit-payload-30', 'short-kexinit-payload-60',
                'short-kexinit-payload-100', 'short-kexinit-payload-130'):
@@ -334,7 +337,7 @@ def tasks(tier):
 def harness_by_name(name, params):
     k = name.split(':')[1].split('-')[0]
     if k == 'fold':
-        return Fold(params['mix'])
+        return Fold(params['mix'], params.get('client', False))
     if k == 'broken':
         return Broken(params['stage'], params['multi'], params.get('json', False))
     if k == 'levelfold':
